@@ -194,7 +194,9 @@ impl Property for C08 {
                 sc.set("szx_seed", (rng.next() >> 2) as i64);
             }
             1 => {
-                sc.set("frames", if tier == Tier::Quick { rng.range(50, 60) } else { rng.range(50, 120) });
+                // mostly a few flash periods; now and then past 256 frames (a frame counter kept in a byte)
+                let long = rng.chance(1, 8);
+                sc.set("frames", if long { rng.range(262, 300) } else if tier == Tier::Quick { rng.range(50, 60) } else { rng.range(50, 120) });
                 sc.set("shadow", (m128 && rng.bool()) as i64);
                 sc.set("warm", rng.range(0, 40));
             }
@@ -500,7 +502,7 @@ impl Property for C08 {
                 }
                 let warm = sc.get("warm").clamp(0, 100) as usize;
                 run_frames(&mut e, warm + 2).map_err(|x| Fail::new("C08.run", "", x))?;
-                let n = sc.get("frames").clamp(40, 200) as usize;
+                let n = sc.get("frames").clamp(40, 700) as usize;
                 let mut phases = vec![];
                 for _ in 0..n {
                     run_frames(&mut e, 1).map_err(|x| Fail::new("C08.run", "", x))?;
